@@ -1424,14 +1424,14 @@ func (lhh *LightHouseHandler) handleHostPunchNotification(n *NebulaMeta, fromVpn
 		return
 	}
 
-	remoteAllowList := lhh.lh.GetRemoteAllowList()
+	// Same filter as for addresses we would handshake with: allowed by the remote allow list and not
+	// inside our own overlay networks (punching there would send the packet into our own tunnels).
 	for _, a := range n.Details.V4AddrPorts {
 		if a == nil {
 			continue
 		}
-		b := protoV4AddrPortToNetAddrPort(a)
-		if remoteAllowList.Allow(detailsVpnAddr, b.Addr()) {
-			lhh.lh.punchy.Schedule(b, detailsVpnAddr)
+		if lhh.lh.unlockedShouldAddV4(detailsVpnAddr, a) {
+			lhh.lh.punchy.Schedule(protoV4AddrPortToNetAddrPort(a), detailsVpnAddr)
 		}
 	}
 
@@ -1439,9 +1439,8 @@ func (lhh *LightHouseHandler) handleHostPunchNotification(n *NebulaMeta, fromVpn
 		if a == nil {
 			continue
 		}
-		b := protoV6AddrPortToNetAddrPort(a)
-		if remoteAllowList.Allow(detailsVpnAddr, b.Addr()) {
-			lhh.lh.punchy.Schedule(b, detailsVpnAddr)
+		if lhh.lh.unlockedShouldAddV6(detailsVpnAddr, a) {
+			lhh.lh.punchy.Schedule(protoV6AddrPortToNetAddrPort(a), detailsVpnAddr)
 		}
 	}
 
